@@ -10,6 +10,7 @@ ENGINES = {
     "C": {"name": "node-sim", "pkg": "./bfe_server", "desc": "whole BfeServer (NewBfeServer/InitHttp/InitDataLoad/modules) built from generated config files, real conn.serve/ReverseProxy/bfe_http.Transport, scripted clients and backends on simnet"},
     "D2": {"name": "http1-codec-sim", "pkg": "./bfe_http", "desc": "real bfe_http chunked reader/writer and ReadRequest fed through seeded segmenting / failing readers (simio), against the href RFC 7230 reference parsers"},
     "D3": {"name": "proxyproto-sim", "pkg": "./bfe_proxy", "desc": "real bfe_proxy.Conn over a simulated connection: a scripted sender (spec-conformant v1/v2 headers, malformed ones, none) with seeded segmentation, stalls past the header timeout on the fake clock and cuts"},
+    "D1": {"name": "bufio-sim", "pkg": "./bfe_bufio", "desc": "real bfe_bufio Reader/Writer driven by seeded operation scripts over segmenting / failing sources and sinks (simio); stream and counter oracles, std bufio as second opinion on return conventions"},
     "A": {"name": "balancer-sim", "pkg": "./bfe_balance", "desc": "real bal_table/bal_gslb/bal_slb/backend under the lock-granular scheduler, fake clock, configs through the real file loaders"},
 }
 
@@ -96,6 +97,12 @@ PROPS["C46"] = dict(expect_probes=["valid_ok", "malformed_rejected", "header_tim
     level_text="A sender task writes a header built from the PROXY protocol specification (v1 TCP4/TCP6/UNKNOWN, v2 PROXY/LOCAL with TCP4/TCP6/UNSPEC blocks and TLVs incl. NOOP padding), a malformed one, or none, followed by a payload, over a simulated connection with seeded segmentation, a stall that may exceed the header timeout (fake clock) or a cut inside the header; a reader task reads through the real bfe_proxy.Conn. Oracle: advertised addresses (socket peer for LOCAL/UNKNOWN), payload identical and complete, malformed/truncated => error and zero payload bytes, timeout => error.",
     level_note="Trusted: simrt/simnet, the header builders (written from the specification, independent of bfe_proxy's writer). UDP and UNIX families are not generated (the statement does not say what to report for them).",
     technique="deterministic simulation: two-party exchange over a simulated connection with seeded segmentation, stalls against a simulated clock and cuts; spec-derived sender as oracle")
+
+PROPS["C22"] = dict(expect_probes=["reader_script", "writer_script"], engine="D1", runs=(20000, 1000000), modes=[("nofault", 0.3), ("swarm", 0.7)], race=False,
+    level="exploration", design="§6 Engine D / C22",
+    level_text="Seeded operation scripts (Read, ReadByte, ReadSlice, ReadLine, ReadBytes, Peek, UnreadByte, ReadRune, UnreadRune, WriteTo, Buffered; Write, WriteByte, WriteRune, WriteString, ReadFrom, Flush) over a source that delivers seeded segments down to one byte, (0,nil) reads or an error at a seeded offset, and a sink that fails at an offset; buffer sizes 16-4096. Oracle: every byte handed out is the next byte of the source stream, in order; TotalRead / TotalWrite equal the bytes consumed / accepted after every operation; flushed bytes equal accepted bytes; in fault-free runs return conventions are compared with go1.26.8's bufio on the same script.",
+    level_note="Trusted: simrt/simio, the positional stream model. The std comparison is limited to operations whose contract did not change since the fork and stops after the first Unread*.",
+    technique="deterministic simulation: seeded operation histories over seeded segmenting/failing I/O endpoints; stream-position and counter invariants after every step")
 
 NOT_APPLICABLE = {
     "C10": "pure function of (host table, VIP table, Host header): no goroutine, clock, stream, file or peer takes part; the only thing to vary is input, which is generation, not simulation (DESIGN §7)",
